@@ -90,11 +90,12 @@ def TOK (c : Cfg) (mem abs : Mem) (last : Option Ev) (stored : List Tok) (u : Ti
   | .fMissed k => last = some (.find u k none)
   | .fDone k r => last = some (.find u k r) ∧ ∀ v, r = some v → Complete c stored k v
   | .rCopy .. => False
-  | .pDone k v => Complete c stored k v
-  | .wLocked k id _ => (k, id) ∈ stored ∧ abs = mem.insert c k (val c k id)
-  | .wWrite k id _ i => (k, id) ∈ stored ∧ i ≤ c.L ∧ abs = mem.insert c k (val c k id) ∧
+  | .pDone k v => Complete c stored k v ∧
+      (last = some (.find u k (some v)) ∨ ∃ id, last = some (.insert u k id) ∧ v = val c k id)
+  | .wLocked k id _ => last = some (.insert u k id) ∧ (k, id) ∈ stored ∧ abs = mem.insert c k (val c k id)
+  | .wWrite k id _ i => last = some (.insert u k id) ∧ (k, id) ∈ stored ∧ i ≤ c.L ∧ abs = mem.insert c k (val c k id) ∧
       (mem.tab (c.idx k)).key = some k ∧ (mem.tab (c.idx k)).words.take i = List.replicate i (k, id)
-  | .wFin k id _ => (k, id) ∈ stored ∧ mem = abs
+  | .wFin k id _ => last = some (.insert u k id) ∧ (k, id) ∈ stored ∧ mem = abs
   | .cLocked => abs = mem.clear c
   | .cDone | .kDone | .lFin => mem = abs
   | .kLocked k => abs = mem.clearKey c k
@@ -144,10 +145,10 @@ theorem TOK_mono {c mem abs last stored stored' u} {x : T} (hsub : ∀ a, a ∈ 
   case fCopy => exact h
   case fMissed => exact h
   case fDone => exact ⟨h.1, fun v hv => Complete_mono hsub (h.2 v hv)⟩
-  case pDone => exact Complete_mono hsub h
-  case wLocked => exact ⟨hsub _ h.1, h.2⟩
-  case wWrite => exact ⟨hsub _ h.1, h.2⟩
-  case wFin => exact ⟨hsub _ h.1, h.2⟩
+  case pDone => exact ⟨Complete_mono hsub h.1, h.2⟩
+  case wLocked => exact ⟨h.1, hsub _ h.2.1, h.2.2⟩
+  case wWrite => exact ⟨h.1, hsub _ h.2.1, h.2.2⟩
+  case wFin => exact ⟨h.1, hsub _ h.2.1, h.2.2⟩
   case cLocked => exact h
   case cDone => exact h
   case kDone => exact h
